@@ -16,6 +16,13 @@ META = {"text": "TLC explores every interleaving of every generated mailbox prog
         "technique": "TLC model checking of SgKernel + TLC trace validation of real runs (kdrv, hook H1)"}
 
 EXTRA = [
+    # an actor ends with an un-waited asynchronous receive / send queued in the middle of the mailbox: the others keep their order
+    new_prog(perm=[0], actors=[[op("geta", 1)], [op("sleep", 0, 0, 1), op("geta", 1), op("wait", 1)],
+                               [op("sleep", 0, 0, 2), op("geta", 1), op("wait", 1)], [op("sleep", 0, 0, 3), op("put", 1, 0, 1), op("put", 1, 0, 1)]]),
+    new_prog(perm=[0], actors=[[op("puta", 1, 0, 2), op("sleep", 0, 0, 20)], [op("sleep", 0, 0, 1), op("puta", 1, 0, 2)],
+                               [op("sleep", 0, 0, 2), op("puta", 1, 0, 2), op("sleep", 0, 0, 20)],
+                               [op("sleep", 0, 0, 3), op("puta", 1, 0, 2), op("sleep", 0, 0, 20)],
+                               [op("sleep", 0, 0, 4), op("get", 1), op("get", 1), op("get", 1)]]),
     new_prog(perm=[0], actors=[[op("put", 1, 0, 5), op("put", 1, 0, 3)], [op("get", 1), op("get", 1)]]),
     new_prog(perm=[0], actors=[[op("puta", 1, 0, 5), op("puta", 1, 0, 3), op("wait", 2), op("wait", 1)],
                                [op("sleep", 0, 0, 2), op("geta", 1), op("get", 1), op("wait", 1)]]),
